@@ -40,16 +40,25 @@ func Execute(ctx context.Context, strategy ExecutionStrategy, members []Member) 
 	case ExecutionStrategyOne:
 		res, i, err := ExecuteOne(ctx, members)
 		allRes := make([]proto.Message, len(members))
+		if len(members) == 0 {
+			return allRes, err // no member, so no index to report a result at
+		}
 		allRes[i] = res
 		return allRes, err
 	case ExecutionStrategyFast:
 		res, i, err := ExecuteFast(ctx, members)
 		allRes := make([]proto.Message, len(members))
+		if len(members) == 0 {
+			return allRes, err // no member, so no index to report a result at
+		}
 		allRes[i] = res
 		return allRes, err
 	case ExecutionStrategyRace:
 		res, i, err := ExecuteRace(ctx, members)
 		allRes := make([]proto.Message, len(members))
+		if len(members) == 0 {
+			return allRes, err // no member, so no index to report a result at
+		}
 		allRes[i] = res
 		return allRes, err
 	}
